@@ -26,11 +26,31 @@ def gen_jobdefs(rnd):
     return defs
 
 
+# directed sessions: the shapes of the counterexamples TLC found in the job-control model while the code still had the
+# corresponding defects (a member stopped and continued while its sibling runs, then the sibling ends; a background member
+# changing state during a foreground wait; Ctrl-Z after one member has gone) - always part of the run, with varying delay profiles
+DIRECTED = [
+    ([{"pids": [11, 12], "bg": False}],
+     [("launch", {"d": 1}), ("extstop", {"p": 11}), ("extcont", {"p": 11}), ("extexit", {"p": 12}), ("extkill", {"p": 11}), ("jobs", {})]),
+    ([{"pids": [11, 12], "bg": False}],
+     [("launch", {"d": 1}), ("extstop", {"p": 12}), ("extcont", {"p": 12}), ("extkill", {"p": 11}), ("ctrlz", {}), ("jobs", {}), ("fg", {"id": 1}),
+      ("ctrlc", {}), ("jobs", {})]),
+    ([{"pids": [11, 12, 13], "bg": False}],
+     [("launch", {"d": 1}), ("extstop", {"p": 12}), ("extcont", {"p": 12}), ("extexit", {"p": 11}), ("extexit", {"p": 13}), ("extstop", {"p": 12}),
+      ("jobs", {}), ("bg", {"id": 1}), ("jobs", {}), ("extkill", {"p": 12}), ("enter", {})]),
+    ([{"pids": [21], "bg": True}, {"pids": [11, 12], "bg": False}],
+     [("launch", {"d": 1}), ("launch", {"d": 2}), ("extstop", {"p": 21}), ("extcont", {"p": 21}), ("extstop", {"p": 21}), ("extexit", {"p": 11}),
+      ("extexit", {"p": 12}), ("jobs", {}), ("jobs", {}), ("extcont", {"p": 21}), ("jobs", {}), ("extkill", {"p": 21}), ("enter", {})]),
+]
+
+
 def run_session(args):
-    """runs in a worker process: one random session; returns (records, error or None, plan)"""
+    """runs in a worker process: one random (or directed) session; returns (records, error or None, plan)"""
     seed, nact = args
     import ptydrv
     rnd = random.Random(seed)
+    if nact < 0:
+        return run_directed(rnd, DIRECTED[-nact - 1])
     defs = gen_jobdefs(rnd)
     s = None
     # schedule exploration: widen one of the fork / setpgid race windows of run_pipeline (hook schedule points)
@@ -84,6 +104,32 @@ def run_session(args):
         cleanup_scratch()
 
 
+def run_directed(rnd, plan):
+    import ptydrv
+    defs, script = plan
+    delay = rnd.choice(["", "child0_pre_setpgid=40", "child1_pre_setpgid=40", "parent_after_fork0=40", "parent_after_fork1=40"])
+    s = None
+    try:
+        s = ptydrv.Session(defs, extra_env={"CICADA_VERIF_DELAY": delay} if delay else None)
+        s.records[0]["delay"] = delay
+        s.records[0]["directed"] = True
+        for ev, kw in script:
+            if ev in ("fg", "bg"):
+                s.act("jobs")
+                if kw["id"] not in s.idmap:
+                    continue
+            s.act(ev, **kw)
+        return (s.records, None, defs)
+    except ptydrv.Unsettled as e:
+        return (s.records if s else [], "unsettled: %s" % e, defs)
+    except Exception as e:  # noqa
+        return (s.records if s else [], "driver error: %r" % e, defs)
+    finally:
+        if s:
+            s.close()
+        cleanup_scratch()
+
+
 def validate_one(recs):
     ok, ln, text, res = tracecheck.validate("TraceSession", "TraceSession", recs, timeout=300)
     pf = [int(x) for x in re.findall(r'<<"PROPFAIL", (\d+)>>', res.all_out)]
@@ -120,6 +166,7 @@ def runner(rep, tier, seed, replay):
     nsess = 16 if tier == "quick" else 150
     rnd = random.Random(seed)
     plans = [(rnd.randrange(1 << 30), rnd.randint(5, 25)) for _ in range(nsess)]
+    plans += [(rnd.randrange(1 << 30), -(k + 1)) for k in range(len(DIRECTED))]
     with ProcessPoolExecutor(max_workers=8) as ex:
         sessions = list(ex.map(run_session, plans))
     unsettled = [e for (_, e, _) in sessions if e]
